@@ -500,6 +500,16 @@ impl Mp4Track {
             let first_sample_in_chunk = sample_id - (sample_id - first_sample) % samples_per_chunk;
 
             let mut sample_offset = chunk_offset;
+            let stsz = &self.trak.mdia.minf.stbl.stsz;
+            if stsz.sample_size > 0 {
+                // constant sample size: no need to walk the samples of the chunk
+                return ((sample_id - first_sample_in_chunk) as u64)
+                    .checked_mul(stsz.sample_size as u64)
+                    .and_then(|n| n.checked_add(sample_offset))
+                    .ok_or(Error::InvalidData(
+                        "attempt to calculate stbl sample offset with overflow",
+                    ));
+            }
             for i in first_sample_in_chunk..sample_id {
                 sample_offset = sample_offset
                     .checked_add(self.sample_size(i)? as u64)
